@@ -270,6 +270,10 @@ SPECIAL = [
     ('error-after-include-in-section', b'sec {\ninclude("@f1.conf")\nx = bad }', {b'f1.conf': b'x = 4\n\n\n'}, None),
     ('error-in-section-reentered-after-include', b'include("@f1.conf")\nsec {\nx = bad }', {b'f1.conf': b'sec { x = 4 }\n'}, None),
     ('error-in-section-reentered-in-file', b'sec { x = 1 }\ninclude("@f1.conf")', {b'f1.conf': b'\nsec {\nx = bad }'}, None),
+    ('section-opened-in-file-closed-outside', b'include("@f1.conf")\nx = 4 }\ni = x', {b'f1.conf': b'sec {\n'}, None),
+    ('section-opened-in-file-closed-outside-ok', b'include("@f1.conf")\nx = 4 }\ni = 7', {b'f1.conf': b'sec {\n'}, b'sec {\nx = 4 }\ni = 7'),
+    ('section-closed-inside-the-file', b'sec {\ninclude("@f1.conf")\ni = 7', {b'f1.conf': b'x = 4 }\ni = x\n'}, None),
+    ('section-closed-inside-the-file-ok', b'sec {\ninclude("@f1.conf")\ni = x', {b'f1.conf': b'x = 4 }\ni = 8\n'}, None),
     ('unterminated-string-in-file', b'include("@f1.conf")\ni = 8', {b'f1.conf': b's = "abc'}, None),
     ('unterminated-comment-in-file', b'include("@f1.conf")\ni = 8', {b'f1.conf': b'i = 7 /* abc'}, None),
     ('titled-instances-across-files', b'include("@f1.conf") include("@f2.conf")', {b'f1.conf': b'm { x = 1 }', b'f2.conf': b'm { x = 2 } m { }'}, b'm { x = 1 } m { x = 2 } m { }'),
